@@ -297,6 +297,13 @@ impl MT104 {
             });
         }
 
+        // Sequence B is mandatory: a message without it is rejected
+        if transactions.is_empty() {
+            return Err(crate::errors::ParseError::InvalidFormat {
+                message: "MT104: At least one transaction of sequence B (field 21) is required".to_string(),
+            });
+        }
+
         // Parse Sequence C (optional settlement details)
         let field_32b = parser.parse_optional_field::<Field32B>("32B")?;
         let field_19 = parser.parse_optional_field::<Field19>("19")?;
